@@ -665,6 +665,17 @@ class Authorization(Endpoint):
         if _exp_in and "valid_until" in authn_event:
             authn_event["valid_until"] = utc_time_sans_frac() + _exp_in
 
+        return _mngr.create_session(
+            authn_event=authn_event,
+            auth_req=request,
+            user_id=user_id,
+            client_id=request["client_id"],
+            **self._client_session_args(request),
+        )
+
+    def _client_session_args(self, request):
+        """What a new grant inherits from the client's registration."""
+        _context = self.upstream_get("context")
         _token_usage_rules = _context.authz.usage_rules(request["client_id"])
         # the subject identifier follows the client's registered subject type; for pairwise
         # subjects the sector is the registered sector identifier or else the redirect host
@@ -673,15 +684,11 @@ class Authorization(Endpoint):
         _sector_id = ""
         if _sub_type == "pairwise":
             _sector_id = _cinfo.get("sector_id") or urlparse(request.get("redirect_uri", "")).netloc
-        return _mngr.create_session(
-            authn_event=authn_event,
-            auth_req=request,
-            user_id=user_id,
-            client_id=request["client_id"],
-            sub_type=_sub_type,
-            token_usage_rules=_token_usage_rules,
-            sector_identifier=_sector_id,
-        )
+        return {
+            "sub_type": _sub_type,
+            "token_usage_rules": _token_usage_rules,
+            "sector_identifier": _sector_id,
+        }
 
     def _login_required_error(self, redirect_uri, request):
         _res = {
@@ -831,6 +838,7 @@ class Authorization(Endpoint):
                             auth_req=request,
                             user_id=user,
                             client_id=request["client_id"],
+                            **self._client_session_args(request),
                         )
 
         if _session_id:
